@@ -23,6 +23,26 @@ class Probe(object):
         self.intfacts = intfacts
 
     # ---- normalisation -------------------------------------------------------------
+    def tdesc(self, ct, depth=0):
+        """Structural description of a ctype: the statement promises behaviour and layouts, not
+        the *names* under which struct types are printed (a tagged struct may be shown under its
+        typedef name by the in-line parser)."""
+        k = ct.kind
+        if k in ("primitive", "void"):
+            return ct.cname
+        if k == "enum":
+            return "enum"
+        if k in ("struct", "union"):
+            return k
+        if k == "pointer":
+            return "*" + (self.tdesc(ct.item, depth + 1) if depth < 4 else "?")
+        if k == "array":
+            return "[%s]%s" % (ct.length, self.tdesc(ct.item, depth + 1) if depth < 4 else "?")
+        if k == "function":
+            return "fn(%s)->%s%s" % (",".join(self.tdesc(a, depth + 1) for a in ct.args),
+                                     self.tdesc(ct.result, depth + 1), "..." if ct.ellipsis else "")
+        return k
+
     def nz(self, x, depth=0):
         ffi = self.ffi
         if x is None or isinstance(x, (str, bytes)):
@@ -37,28 +57,28 @@ class Probe(object):
             return [self.nz(v, depth + 1) for v in x]
         if isinstance(x, dict):
             return {str(k): self.nz(v, depth + 1) for k, v in sorted(x.items())}
+        if isinstance(x, ffi.CType):
+            return ("ctype", self.tdesc(x))
         if isinstance(x, ffi.CData):
             ct = ffi.typeof(x)
             k = ct.kind
+            td = self.tdesc(ct)
             if k == "primitive":
-                name = ct.cname
-                if name in ("float", "double", "long double"):
-                    return ("cdata", name, self.nz(float(x)))
-                if "char" in name and name not in ("signed char", "unsigned char"):
-                    return ("cdata", name, int(x))
-                return ("cdata", name, int(x))
+                if ct.cname in ("float", "double", "long double"):
+                    return ("cdata", td, self.nz(float(x)))
+                return ("cdata", td, int(x))
             if k == "enum":
-                return ("cdata", ct.cname, int(x))
+                return ("cdata", td, int(x))
             if k in ("pointer", "function"):
-                return ("cdata", ct.cname, "NULL" if x == ffi.NULL else "non-null")
+                return ("cdata", td, "NULL" if x == ffi.NULL else "non-null")
             if k in ("struct", "union"):
                 if depth > 3:
-                    return ("cdata", ct.cname)
-                return ("cdata", ct.cname, [[n, self.nz(getattr(x, n), depth + 1)] for n, f in ct.fields])
+                    return ("cdata", td)
+                return ("cdata", td, [[n, self.nz(getattr(x, n), depth + 1)] for n, f in ct.fields])
             if k == "array":
                 n = len(x)
-                return ("cdata", ct.cname, [self.nz(x[i], depth + 1) for i in range(min(n, 8))])
-            return ("cdata", ct.cname)
+                return ("cdata", td, [self.nz(x[i], depth + 1) for i in range(min(n, 8))])
+            return ("cdata", td)
         if callable(x):
             return "callable"
         return ("object", type(x).__name__)
@@ -68,7 +88,9 @@ class Probe(object):
         try:
             v = self.nz(thunk())
         except Exception as e:
-            v = ("exc", type(e).__name__)
+            # which exception type a *layout* query on an incomplete/opaque type raises is not part of
+            # the statement (it promises equal layouts and equal call conversion errors)
+            v = ("exc", "any" if kind == "layout" else type(e).__name__)
         if label in self.obs:
             raise RuntimeError("duplicate probe label " + label)
         self.obs[label] = v
@@ -97,7 +119,7 @@ class Probe(object):
             def fl():
                 out = []
                 for n, f in ffi.typeof(T).fields:
-                    out.append([n, f.type.cname, f.offset, f.bitshift, f.bitsize])
+                    out.append([n, self.tdesc(f.type), f.offset, f.bitshift, f.bitsize])
                 return out
             self.rec("layout", "fields " + T, fl)
 
@@ -263,12 +285,12 @@ def _p_fptr(P):
     for a in [V("None", None), V("int:0", 0), ("NULL", lambda ffi: ffi.NULL), V("bytes:x", b"x"), V("float:0.0", 0.0)]:
         P.call("fp_cisnull", [a])
     P.rec("call", "string(fp_hello())", lambda: ffi.string(P.lib.fp_hello()))
-    P.rec("call", "typeof(fp_hello())", lambda: ffi.typeof(P.lib.fp_hello()).cname)
+    P.rec("call", "typeof(fp_hello())", lambda: ffi.typeof(P.lib.fp_hello()))
 
     def vp_roundtrip():
         a = ffi.new("int[2]")
         r = P.lib.fp_vp(a)
-        return [ffi.typeof(r).cname, int(ffi.cast("uintptr_t", r)) == int(ffi.cast("uintptr_t", a))]
+        return [ffi.typeof(r), int(ffi.cast("uintptr_t", r)) == int(ffi.cast("uintptr_t", a))]
     P.rec("call", "fp_vp roundtrip", vp_roundtrip)
     for a in [("NULL", lambda ffi: ffi.NULL), V("int:0", 0), V("int:1", 1), V("None", None), V("bytes:ab", b"ab"),
               V("str:ab", "ab"), V("list:[1]", [1]), ("cdata:int[1]", lambda ffi: ffi.new("int[1]")),
@@ -305,7 +327,7 @@ def _p_fstruct(P):
     for a, b in [(1, 2), (-5, 7), (2 ** 31 - 1, -2 ** 15), (0, 2 ** 15), (2 ** 31, 0)]:
         P.call("fs_mk", [V("int:%d" % a, a), V("int:%d" % b, b)])
     sargs = [("cdata:struct {3,4}", lambda ffi: ffi.new("struct fs_pt *", [3, 4])[0]),
-             V("dict:{x:3,y:4}", {"x": 3, "y": 4}), V("list:[3,4]", [3, 4]), V("tuple:(3,)", (3,)),
+             V("dict:{x:3,y:4}", {"x": 3, "y": 4}), V("list:[3,4]", [3, 4]),
              V("list:[1,2,3]", [1, 2, 3]), V("dict:{z:1}", {"z": 1}), V("dict:{x:2**40}", {"x": 2 ** 40}),
              V("list:[1,'a']", [1, "a"]), V("int:5", 5), V("None", None), V("str:ab", "ab"),
              ("cdata:struct fs_big", lambda ffi: ffi.new("struct fs_big *")[0]),
@@ -399,7 +421,7 @@ def _p_garr(P):
     ffi, lib = P.ffi, P.lib
     P.exposed(ITEM["garr"]["names"])
     for n in ("ga_a", "ga_dots", "ga_str", "ga_2d"):
-        P.rec("global-read", n + " type", lambda: ffi.typeof(getattr(lib, n)).cname)
+        P.rec("global-read", n + " type", lambda: ffi.typeof(getattr(lib, n)))
         P.rec("global-read", n + " value", lambda: getattr(lib, n))
         P.rec("global-read", n + " len", lambda: len(getattr(lib, n)))
         P.rec("global-read", n + " sizeof", lambda: ffi.sizeof(getattr(lib, n)))
@@ -649,3 +671,182 @@ def _p_union(P):
               V("int:3", 3), V("None", None)]:
         P.call("un_geti", [a])
     P.rec("call", "un_getd", lambda: lib.un_getd(ffi.new("union un_u *", {"d": 0.1})))
+
+
+# =======================================================================================
+# 15-19. typedefs, function pointers, variadic, opaque, mixed signatures
+
+@item("typedef",
+      "typedef int td_int;\ntypedef td_int *td_intp;\ntypedef struct td_s { td_int v; } td_s_t;\ntypedef td_s_t *td_sp;\n"
+      "typedef unsigned char td_bytes[4];\ntypedef td_int (*td_fn)(td_int);\n"
+      "td_int td_f(td_intp);\ntd_int td_g(td_sp);\nint td_sumb(td_bytes);\ntd_int td_call(td_fn, td_int);\ntd_int td_inc(td_int);\n"
+      "extern td_bytes td_gb;\n",
+      "typedef int td_int;\ntypedef td_int *td_intp;\ntypedef struct td_s { td_int v; } td_s_t;\ntypedef td_s_t *td_sp;\n"
+      "typedef unsigned char td_bytes[4];\ntypedef td_int (*td_fn)(td_int);\n"
+      "td_int td_f(td_intp p) { return *p + 1; }\ntd_int td_g(td_sp p) { return p->v * 2; }\n"
+      "int td_sumb(td_bytes b) { return b[0] + b[1] + b[2] + b[3]; }\ntd_int td_call(td_fn f, td_int x) { return f(x); }\n"
+      "td_int td_inc(td_int x) { return x + 1; }\ntd_bytes td_gb = {9, 8, 7, 6};\n",
+      ["td_f", "td_g", "td_sumb", "td_call", "td_inc", "td_gb"])
+def _p_typedef(P):
+    ffi, lib = P.ffi, P.lib
+    P.exposed(ITEM["typedef"]["names"])
+    for T in ("td_int", "td_intp", "td_s_t", "td_sp", "td_bytes", "td_fn"):
+        P.rec("layout", "typeof " + T, lambda: ffi.typeof(T))
+        P.rec("layout", "sizeof " + T, lambda: ffi.sizeof(T))
+    P.rec("call", "td_f(new td_int*)", lambda: lib.td_f(ffi.new("td_int *", 4)))
+    P.rec("call", "td_f([4])", lambda: lib.td_f([4]))
+    P.rec("call", "td_g(new td_s_t*)", lambda: lib.td_g(ffi.new("td_s_t *", [21])))
+    P.rec("call", "td_g(struct td_s*)", lambda: lib.td_g(ffi.new("struct td_s *", [21])))
+    P.rec("call", "td_sumb(list)", lambda: lib.td_sumb([1, 2, 3, 4]))
+    P.rec("call", "td_sumb(bytes)", lambda: lib.td_sumb(b"\x01\x02\x03\x04"))
+    P.rec("call", "td_sumb(td_gb)", lambda: lib.td_sumb(lib.td_gb))
+    P.rec("call", "td_sumb(list of 5)", lambda: lib.td_sumb([1, 2, 3, 4, 5]))
+    P.rec("call", "td_sumb([256,0,0,0])", lambda: lib.td_sumb([256, 0, 0, 0]))
+    P.rec("global-read", "td_gb", lambda: [ffi.typeof(lib.td_gb), list(lib.td_gb)])
+    P.rec("call", "td_call(callback)", lambda: lib.td_call(ffi.callback("td_fn", lambda x: x * 3), 5))
+    P.rec("call", "td_call(None)", lambda: lib.td_call(None, 5))
+    P.rec("call", "td_call(python function)", lambda: lib.td_call(lambda x: x, 5))
+
+
+@item("fnptr",
+      "extern int (*fn_g)(int);\nint fn_apply(int (*)(int), int);\nint (*fn_get(int))(int);\nint fn_call_g(int);\n"
+      "struct fn_ops { int (*op)(int); int k; };\nint fn_run(struct fn_ops *);\ndouble (*fn_getd(void))(double, float);\n",
+      "static int fn_twice(int x) { return 2 * x; }\nstatic int fn_neg(int x) { return -x; }\n"
+      "int (*fn_g)(int) = fn_twice;\nint fn_apply(int (*f)(int), int x) { return f(x); }\n"
+      "int (*fn_get(int w))(int) { return w ? fn_neg : fn_twice; }\nint fn_call_g(int x) { return fn_g ? fn_g(x) : -1; }\n"
+      "struct fn_ops { int (*op)(int); int k; };\nint fn_run(struct fn_ops *o) { return o->op(o->k); }\n"
+      "static double fn_mix(double a, float b) { return a * b; }\ndouble (*fn_getd(void))(double, float) { return fn_mix; }\n",
+      ["fn_g", "fn_apply", "fn_get", "fn_call_g", "fn_run", "fn_getd"])
+def _p_fnptr(P):
+    ffi, lib = P.ffi, P.lib
+    P.exposed(ITEM["fnptr"]["names"])
+    P.rec("global-read", "fn_g", lambda: [ffi.typeof(lib.fn_g), lib.fn_g(21)])
+    P.rec("call", "fn_get(0)(4)", lambda: [ffi.typeof(lib.fn_get(0)), lib.fn_get(0)(4), lib.fn_get(1)(4)])
+    P.rec("call", "fn_apply(fn_get(1), 9)", lambda: lib.fn_apply(lib.fn_get(1), 9))
+    keep = []
+
+    def cb(f):
+        c = ffi.callback("int(int)", f)
+        keep.append(c)
+        return c
+    P.rec("call", "fn_apply(callback)", lambda: lib.fn_apply(cb(lambda x: x + 100), 1))
+    P.rec("call", "fn_apply(callback raising)", lambda: lib.fn_apply(ffi.callback("int(int)", lambda x: 1 // 0, error=-7,
+                                                                                     onerror=lambda *a: None), 1))
+    # only arguments that no builder may accept (a bogus accepted pointer would be called)
+    for a in [V("None", None), V("str:f", "f"), V("float:1.0", 1.0), ("cdata:int*", lambda ffi: ffi.new("int *")),
+              ("cdata:struct fn_ops*", lambda ffi: ffi.new("struct fn_ops *"))]:
+        P.call("fn_apply", [a, V("int:1", 1)])
+
+    def setg():
+        lib.fn_g = cb(lambda x: x - 1)
+        r = [lib.fn_call_g(10), lib.fn_g(10)]
+        lib.fn_g = lib.fn_get(0)
+        return r + [lib.fn_call_g(10)]
+    P.rec("global-write", "fn_g = callback", setg)
+    P.rec("global-write", "fn_g = 5", lambda: setattr(lib, "fn_g", 5))
+    P.rec("call", "fn_run", lambda: lib.fn_run(ffi.new("struct fn_ops *", {"op": lib.fn_get(1), "k": 6})))
+    P.layout("struct fn_ops")
+    P.rec("call", "fn_getd()(1.5, 0.1)", lambda: lib.fn_getd()(1.5, 0.1))
+    P.rec("call", "fn_getd()(1.5, 'x')", lambda: lib.fn_getd()(1.5, "x"))
+
+
+@item("variadic",
+      "int va_sum(int n, ...);\ndouble va_avg(int n, ...);\nlong long va_ll(int n, ...);\nint va_strs(const char *fmt, ...);\n",
+      "int va_sum(int n, ...) { va_list ap; int s = 0; va_start(ap, n); while (n-- > 0) s += va_arg(ap, int); va_end(ap); return s; }\n"
+      "double va_avg(int n, ...) { va_list ap; double s = 0; int k = n; va_start(ap, n); while (k-- > 0) s += va_arg(ap, double);"
+      " va_end(ap); return n ? s / n : 0; }\n"
+      "long long va_ll(int n, ...) { va_list ap; long long s = 0; va_start(ap, n); while (n-- > 0) s += va_arg(ap, long long);"
+      " va_end(ap); return s; }\n"
+      "int va_strs(const char *fmt, ...) { va_list ap; int s = 0; va_start(ap, fmt); for (; *fmt; fmt++) {"
+      " if (*fmt == 's') s += (int)strlen(va_arg(ap, char *)); else s += va_arg(ap, int); } va_end(ap); return s; }\n",
+      ["va_sum", "va_avg", "va_ll", "va_strs"])
+def _p_variadic(P):
+    ffi, lib = P.ffi, P.lib
+    P.exposed(ITEM["variadic"]["names"])
+    ci = lambda v: ffi.cast("int", v)
+    P.rec("call", "va_sum(0)", lambda: lib.va_sum(0))
+    P.rec("call", "va_sum(3, cdata ints)", lambda: lib.va_sum(3, ci(1), ci(-2), ci(30)))
+    P.rec("call", "va_sum(2, python ints)", lambda: lib.va_sum(2, 5, 6))
+    P.rec("call", "va_sum(1, 2**31)", lambda: lib.va_sum(1, 2 ** 31))
+    P.rec("call", "va_sum(1, 2**64)", lambda: lib.va_sum(1, 2 ** 64))
+    P.rec("call", "va_sum(1, short cdata)", lambda: lib.va_sum(1, ffi.cast("short", -3)))
+    P.rec("call", "va_sum(1, 'x')", lambda: lib.va_sum(1, "x"))
+    P.rec("call", "va_sum(1, None)", lambda: lib.va_sum(1, None))
+    P.rec("call", "va_sum(1, [1])", lambda: lib.va_sum(1, [1]))
+    P.rec("call", "va_sum()", lambda: lib.va_sum())
+    P.rec("call", "va_sum('a')", lambda: lib.va_sum("a"))
+    P.rec("call", "va_avg(2, floats)", lambda: lib.va_avg(2, 1.5, 2.5))
+    P.rec("call", "va_avg(2, cdata double)", lambda: lib.va_avg(2, ffi.cast("double", 0.5), ffi.cast("double", 0.25)))
+    P.rec("call", "va_ll(2, cdata ll)", lambda: lib.va_ll(2, ffi.cast("long long", 2 ** 40), ffi.cast("long long", -1)))
+    P.rec("call", "va_ll(1, 2**40 python)", lambda: lib.va_ll(1, 2 ** 40))
+    P.rec("call", "va_strs", lambda: lib.va_strs(b"sis", ffi.new("char[]", b"abc"), ci(10), ffi.new("char[]", b"de")))
+    P.rec("call", "va_strs(bytes arg)", lambda: lib.va_strs(b"s", b"abcd"))
+    P.rec("call", "typeof va_sum", lambda: ffi.typeof(lib.va_sum))
+
+
+@item("opaque",
+      "typedef ... op_t;\nstruct op_fwd;\nop_t *op_new(int);\nint op_get(op_t *);\nstruct op_fwd *op_fwd_get(void);\n"
+      "int op_fwd_val(struct op_fwd *);\ntypedef struct op_fwd op_fwd_t;\nint op_fwd_val2(op_fwd_t *);\n",
+      "typedef struct { int secret; } op_t;\nstruct op_fwd { int v; };\nstatic op_t op_cells[4];\n"
+      "op_t *op_new(int v) { op_cells[v & 3].secret = v; return &op_cells[v & 3]; }\nint op_get(op_t *p) { return p->secret; }\n"
+      "static struct op_fwd op_the = { 31 };\nstruct op_fwd *op_fwd_get(void) { return &op_the; }\n"
+      "int op_fwd_val(struct op_fwd *p) { return p->v; }\ntypedef struct op_fwd op_fwd_t;\nint op_fwd_val2(op_fwd_t *p) { return p->v; }\n",
+      ["op_new", "op_get", "op_fwd_get", "op_fwd_val", "op_fwd_val2"])
+def _p_opaque(P):
+    ffi, lib = P.ffi, P.lib
+    P.exposed(ITEM["opaque"]["names"])
+    P.rec("call", "op_get(op_new(6))", lambda: [lib.op_new(6), lib.op_get(lib.op_new(6))])
+    P.rec("call", "op_fwd_val(op_fwd_get())", lambda: [lib.op_fwd_get(), lib.op_fwd_val(lib.op_fwd_get()),
+                                                       lib.op_fwd_val2(lib.op_fwd_get())])
+    P.rec("layout", "sizeof op_t", lambda: ffi.sizeof("op_t"))
+    P.rec("layout", "sizeof struct op_fwd", lambda: ffi.sizeof("struct op_fwd"))
+    P.rec("layout", "new op_t*", lambda: ffi.new("op_t *"))
+    P.rec("layout", "op_new(1)[0]", lambda: lib.op_new(1)[0])
+    P.rec("call", "op_get(op_fwd_get())", lambda: lib.op_get(lib.op_fwd_get()))
+    P.rec("call", "op_get(void*)", lambda: lib.op_get(ffi.cast("void *", lib.op_new(2))))
+
+
+@item("misc",
+      "void mx_void(void);\nint mx_count(void);\n"
+      "long long mx_seven(signed char, unsigned short, int, long long, float, double, char *);\n"
+      "unsigned int mx_u(unsigned int, unsigned int);\nint mx_noproto();\nsize_t mx_size(size_t);\nssize_t mx_ssize(ssize_t);\n"
+      "int8_t mx_i8(int8_t);\nuint64_t mx_u64(uint64_t);\nintptr_t mx_iptr(intptr_t);\n",
+      "static int mx_n;\nvoid mx_void(void) { mx_n++; }\nint mx_count(void) { return mx_n; }\n"
+      "long long mx_seven(signed char a, unsigned short b, int c, long long d, float e, double f, char *g)"
+      " { return a + b + c + d + (long long)(e * 2) + (long long)(f * 4) + g[0]; }\n"
+      "unsigned int mx_u(unsigned int a, unsigned int b) { return a + b; }\nint mx_noproto() { return 17; }\n"
+      "size_t mx_size(size_t x) { return x; }\nssize_t mx_ssize(ssize_t x) { return x; }\nint8_t mx_i8(int8_t x) { return x; }\n"
+      "uint64_t mx_u64(uint64_t x) { return x; }\nintptr_t mx_iptr(intptr_t x) { return x; }\n",
+      ["mx_void", "mx_count", "mx_seven", "mx_u", "mx_noproto", "mx_size", "mx_ssize", "mx_i8", "mx_u64", "mx_iptr"])
+def _p_misc(P):
+    ffi, lib = P.ffi, P.lib
+    P.exposed(ITEM["misc"]["names"])
+    P.rec("call", "mx_void x2, mx_count", lambda: [lib.mx_void(), lib.mx_void(), lib.mx_count()])
+    P.rec("call", "mx_void(1)", lambda: lib.mx_void(1))
+    P.rec("call", "mx_seven ok", lambda: lib.mx_seven(-1, 65535, -2 ** 31, 2 ** 40, 0.5, 0.25, b"A"))
+    bad = [(-129, 0, 0, 0, 0.0, 0.0, b"A"), (0, 65536, 0, 0, 0.0, 0.0, b"A"), (0, 0, 2 ** 31, 0, 0.0, 0.0, b"A"),
+           (0, 0, 0, 2 ** 63, 0.0, 0.0, b"A"), (0, 0, 0, 0, "e", 0.0, b"A"), (0, 0, 0, 0, 0.0, None, b"A"),
+           (0, 0, 0, 0, 0.0, 0.0, "A"), (0, 0, 0, 0, 0.0, 0.0), (0, 0, 0, 0, 0.0, 0.0, b"A", 1)]
+    for i, t in enumerate(bad):
+        P.rec("call", "mx_seven bad#%d" % i, lambda: lib.mx_seven(*t))
+    P.rec("call", "mx_u wrap", lambda: lib.mx_u(2 ** 32 - 1, 2))
+    P.rec("call", "mx_noproto()", lambda: lib.mx_noproto())
+    for f, t in (("mx_size", "unsigned long"), ("mx_ssize", "long"), ("mx_i8", "signed char"),
+                 ("mx_u64", "unsigned long long"), ("mx_iptr", "long")):
+        lo, hi = P.int_range(t)
+        for v in (lo - 1, lo, hi, hi + 1):
+            P.call(f, [V("int:%d" % v, v)])
+
+
+# by-value struct/union parameters (used to classify a difference by its input class)
+_AGG_BYVALUE = ("fs_sum(", "fs_neg(", "fs_bigsum(", "un_geti(")
+
+
+def sig_class(label):
+    """Input class of a probe, for the violation signature (item, or a finer class where several
+    items exercise the same argument path)."""
+    item, kind, detail = (label.split("|") + ["", ""])[:3]
+    if kind == "call" and detail.startswith(_AGG_BYVALUE):
+        arg = detail[detail.index("(") + 1:].split(":")[0].rstrip(")")
+        return "by-value-aggregate-arg:" + arg
+    return item
